@@ -60,6 +60,15 @@ def having_const_below(x):
     return [having_const_below(y) if isinstance(y, list) else y for y in x]
 
 
+def having_false_below(x):
+    """Group([], aggs, HAVING h, q)  ->  Group([], aggs, None, Filter(FALSE, q))   (what the engine computes when h folds to FALSE)"""
+    if not isinstance(x, list) or not x:
+        return x
+    if x[0] == "group" and x[1] == [] and x[3] is not None:
+        return ["group", [], x[2], None, ["filter", ["lit", False], having_false_below(x[4])]]
+    return [having_false_below(y) if isinstance(y, list) else y for y in x]
+
+
 def short_key(k):
     """'C01-KF1 ... + C01-KF3 ...' -> 'C03-via-C01-KF1+KF3'.  KF2 (INTERSECT / EXCEPT ALL planned as semi / anti joins) is a defect
     of the logical plan BUILDER, present in the unoptimised plan too: it is dropped from the key; a pure KF2 deviation -> None"""
@@ -76,6 +85,9 @@ def explanations(c):
     q5 = having_const_below(c["q"])
     if q5 != c["q"]:
         out.append((KF5, q5))
+    q5b = having_false_below(c["q"])
+    if q5b != c["q"]:
+        out.append((KF5, q5b))       # a HAVING that the simplifier folds to FALSE (e.g. `.. AND FALSE`)
     if has_node(c["q"], lambda n: n and n[0] == "insub"):
         out.append((KF6, deviate_all_in(c["q"])))
     return out
@@ -104,10 +116,29 @@ def stacked_filters_dup_names(plan):
     return False
 
 
+def filter_over_right_join_same_names(plan):
+    """Filter directly over a Right Join, the predicate mentioning one column name under two qualifiers (a1.c2 .. a2.c2)"""
+    if not plan:
+        return False
+    import re
+    ls = plan.split("\n")
+    for i in range(len(ls) - 1):
+        a, b = ls[i].lstrip(), ls[i + 1].lstrip()
+        if a.startswith("Filter:") and b.startswith("Right Join:"):
+            by_name = {}
+            for q_, n_ in re.findall(r"\b(\w+)\.(\w+)\b", a):
+                by_name.setdefault(n_, set()).add(q_)
+            if any(len(v) > 1 for v in by_name.values()):
+                return True
+    return False
+
+
 def structural_class(c, g):
     """classes of known engine defects recognised by the shape of the input (no precise rewriting is available)"""
     if set(g["rs"]) <= {"without:push_down_filter"} and stacked_filters_dup_names(g.get("plan")):
         return KF9
+    if filter_over_right_join_same_names(g.get("plan")):
+        return "C03-via-C01-KF5"
     if has_node(c["q"], lambda n: n and n[0] == "insub" and n[1] is True and _corr(n[3])):
         return KF8
     return None
@@ -126,7 +157,7 @@ def err_class(e):
 
 def run(pid, tier, seed, replay):
     ck = Check(pid, tier, seed, level="proof")
-    n = 330 if tier == "quick" else 6600
+    n = 286 if tier == "quick" else 6600
     ck.proof_step(extra_targets=["Model/RefSQL.vo", "Proofs/RefSQLLaws.vo", "Model/RewriteRules.vo", "Proofs/RewriteRulesProofs.vo"])
     ok, out, dt = vlib.cargo_build("h_core", bin="c03")
     ck.log("cargo build: ok=%s (%.0fs)" % (ok, dt))
@@ -176,6 +207,10 @@ def run(pid, tier, seed, replay):
                 seen_out[ck_] = (ci, gi)
                 items.append((ci, gi))
                 terms.append(r_case(c, rows))
+            elif g["out"]["err"].startswith("timeout:"):
+                n_panics["timeout"] = n_panics.get("timeout", 0) + 1
+                ck.fail_input("plan did not finish under optimizer rule sets %s: %s" % (g["rs"][:4], g["out"]["err"][:200]),
+                              brief(c, {"rule_sets": g["rs"], "plan": g.get("plan")}), key="C03-via-C01-KF6")
             elif g["out"]["err"].startswith("panic:"):
                 msg = g["out"]["err"]
                 key = KF7 if "k > 0" in msg else None
@@ -314,7 +349,7 @@ def run(pid, tier, seed, replay):
     ck.coverage.update({
         "evaluations": variants_total,
         "distinct_nontrivial": len(nt),
-        "rule": "one generated query per case (C01 generator's 19 streams + c03_outer / c03_empty / c03_limit, round-robin, preceded by 8 fixed witnesses) "
+        "rule": "one generated query per case (C01 generator's 19 streams + c03_outer / c03_empty / c03_limit, round-robin, preceded by 9 fixed witnesses) "
                 "over 1..3 tables (0..8 rows, nullable BIGINT/VARCHAR/BOOLEAN, ~25%% NULLs), MemTables with 1..3 partitions, target_partitions 1..3; "
                 "each analysed plan optimised + executed under none / all / only:<rule> / without:<rule> for the %d rules of Optimizer::new(); "
                 "non-trivial = every executable variant agrees with the reference, some variant returned a row, more than one distinct optimised plan, "
